@@ -9,6 +9,7 @@ one that reports a violation ("killed by Cnn").  A mutant nobody reports is a SU
 (equivalent / outside every property / a gap in a monitor).
 
 usage: mutate.py run ... --ids M00001,M00002 | --ids @file   (only these mutants, e.g. to re-test survivors)
+       mutate.py run ... --relevant-only   (only the monitors anchored in the mutated file; faster, for re-tests)
        mutate.py list                                   -> prints the mutant count per file
        mutate.py run <out.jsonl> [--jobs N] [--sample K] [--seed S] [--files a.rs,b.rs] [--tier quick]
        mutate.py suite <out.jsonl> <survivors.jsonl>    -> runs the crate's own test suite on the survivors
@@ -113,12 +114,17 @@ def sh(cmd, **kw):
     return subprocess.run(cmd, capture_output=True, text=True, **kw)
 
 
+relevant_only = False
+
+
 def order_for(rel):
     first = []
     for k, v in RELEVANT.items():
         if rel.startswith(k):
             first = v
             break
+    if relevant_only and first:
+        return first
     return first + [c for c in ALL if c not in first]
 
 
@@ -204,6 +210,7 @@ def main():
     if a[0] == "run":
         out = a[1]
         jobs, sample, seed, files, tier, ids = 3, None, 1, None, "quick", None
+        global relevant_only
         i = 2
         while i < len(a):
             if a[i] == "--jobs": jobs = int(a[i + 1])
@@ -211,6 +218,7 @@ def main():
             elif a[i] == "--seed": seed = int(a[i + 1])
             elif a[i] == "--files": files = a[i + 1].split(",")
             elif a[i] == "--tier": tier = a[i + 1]
+            elif a[i] == "--relevant-only": relevant_only = True; i -= 1
             elif a[i] == "--ids": ids = set(open(a[i + 1][1:]).read().split()) if a[i + 1].startswith("@") else set(a[i + 1].split(","))
             i += 2
         ms = mutants()
